@@ -14,7 +14,7 @@ BUILTIN_NAMES = set('len list tuple set frozenset dict zip enumerate reversed ra
                     'all any map'.split())
 SPEC_NAMES = set('old result implies fresh unchanged seq_remove seq_index ite map_keys is_int is_str is_none is_bool is_real '
                  'upper lower class_defaults int_str every refs anyref ints strs vals arr_set arr_dec_above seq_without seq_take '
-                 'seq_drop allocated'.split())
+                 'seq_drop allocated map_set map_del same'.split())
 EXC_NAMES = set('Exception KeyError IndexError ValueError TypeError AttributeError StopIteration ZeroDivisionError AssertionError '
                 'RuntimeError NotImplementedError LookupError ArithmeticError BaseException'.split())
 
@@ -53,6 +53,8 @@ class ExprMixin(object):
     def global_name(self, n, st):
         if n in self.reg.specfns or n in self.reg.uninterp:
             return SpecFn(n)
+        if n == 'object' and not self.spec_mode:
+            return ClassRef('object')
         if n in BUILTIN_NAMES or (self.spec_mode and n in SPEC_NAMES):
             return SpecFn('builtin:' + n)
         if n in EXC_NAMES:
@@ -485,7 +487,7 @@ class ExprMixin(object):
             return self.module_attr(base, attr, st)
         if isinstance(base, ClassRef):
             ci = self.prog.classes.get(base.name)
-            if ci and attr in ci['methods']:
+            if (ci and attr in ci['methods']) or self.reg.method(base.name, attr) is not None:
                 return BoundMethod(base, attr)
             if ci and attr in ci['attrs'] and isinstance(ci['attrs'][attr], ast.Constant):
                 return self.ev_Constant(ci['attrs'][attr], st)
